@@ -135,6 +135,9 @@ macro_rules! target_twins {
 
 /// A pair of normalized models: equivalent, equal / neighbouring block sizes, short block hashes.
 fn pair(ctx: &mut Ctx, cap2: usize) -> (Model, Model) {
+    if ctx.rng.chance(1, 4) {
+        return gen::asym_pair(&mut ctx.rng, cap2);
+    }
     let a = match ctx.rng.below(5) {
         0 => gen::model_second(&mut ctx.rng, cap2).normalized(),
         1 => gen::model_rich(&mut ctx.rng, cap2).normalized(),
